@@ -404,7 +404,7 @@ def r3_once(program, rep, B):
                     while tr_ is not None and not isinstance(tr_, ast.Try):
                         tr_ = getattr(tr_, "_parent", None)
                     if tr_ is None or not any(
-                            _inside(c_, st__) for st__ in tr_.body):
+                            _own_inside(c_, st__) for st__ in tr_.body):
                         continue
                     catches = any(
                         h_.type is not None and any(
@@ -412,11 +412,11 @@ def r3_once(program, rep, B):
                             x_.id in ("KeyError", "LookupError")
                             for x_ in ast.walk(h_.type))
                         for h_ in tr_.handlers)
-                    leaves = all(not any(_inside(feed, st__)
+                    leaves = all(not any(_own_inside(feed, st__)
                                          for st__ in h_.body)
                                  for h_ in tr_.handlers)
-                    in_else = any(_inside(feed, st__) for st__ in tr_.orelse
-                                  ) or any(_inside(feed, st__)
+                    in_else = any(_own_inside(feed, st__) for st__ in tr_.orelse
+                                  ) or any(_own_inside(feed, st__)
                                            for st__ in tr_.body)
                     okpop = catches and leaves and in_else
             # a pop without default under a membership test must follow it
